@@ -52,6 +52,19 @@ static std::vector<item<T>> alphabet(int which)   // 0 full, 1 reduced, 2 medium
         bool const usable = res.variance() > T() && kappa * std::numeric_limits<T>::epsilon() < 1e-2L;
         out.push_back({res, false, usable, "(N=10,hits=1,E=" + vf::dec(T(e)) + ",S=" + vf::dec(T(s)) + ")"});
     }
+    // call counters beyond 2^32 in the sum (two of these): the counters are std::size_t
+    for (L e : {1.0L, -3.0L})
+    {
+        sz const big = 3000000000u;
+        auto const res = hep::create_result<T>(big, big, big, T(e), T(1e-3L));
+        bool const usable = res.variance() > T() && (1 + e * e / ((big - 1) * 1e-6L)) * std::numeric_limits<T>::epsilon() < 1e-2L;
+        out.push_back({res, false, usable, "(N=3e9,E=" + vf::dec(T(e)) + ",S=0.001)"});
+    }
+    // results with non-finite evaluations: fewer finite than non-zero calls
+    {
+        auto const res = hep::create_result<T>(10, 10, 7, T(0.5), T(0.1L));
+        out.push_back({res, false, res.variance() > T(), "(N=10,nonzero=10,finite=7,E=0.5,S=0.1)"});
+    }
     out.push_back({hep::mc_result<T>(10, 0, 0, T(), T()), true, true, "(empty,N=10)"});
     return out;
 }
